@@ -9,6 +9,12 @@ class Step:
     def __init__(s, kind, line, **kw):
         s.kind = kind; s.line = line; s.__dict__.update(kw)
 
+def manifest_lines(g):
+    """the step line(s) that (re)write the manifest: build.ninja and, for a split graph, part.ninja"""
+    l = 'step edit %s %s' % (hx('build.ninja'), hx(g.manifest()))
+    if g.is_split(): l = 'step edit %s %s\n' % (hx('part.ninja'), hx(g.manifest(part=True))) + l
+    return l
+
 class Hist:
     """one scenario: graph + history; records ground truth at each build step"""
     def __init__(s, sid, g):
@@ -22,17 +28,17 @@ class Hist:
         s.sources[path] = content
         s.add(Step('edit', 'step edit %s %s' % (hx(path), hx(content)), path=path))
     def rewrite_manifest(s):
-        s.add(Step('manifest', 'step edit %s %s' % (hx('build.ninja'), hx(s.g.manifest())), g_after=copy.deepcopy(s.g)))
+        s.add(Step('manifest', manifest_lines(s.g), g_after=copy.deepcopy(s.g)))
     def transformed(s, sid, f, manifest_on_sethidden=False):
         """the same history on the graph f(g) (f applied to every snapshot)"""
         h2 = Hist(sid, f(s.g0))
         for st in s.steps:
             if st.kind == 'manifest':
-                h2.add(Step('manifest', 'step edit %s %s' % (hx('build.ninja'), hx(f(st.g_after).manifest())), g_after=f(st.g_after)))
+                h2.add(Step('manifest', manifest_lines(f(st.g_after)), g_after=f(st.g_after)))
             elif st.kind == 'sethidden':
                 g2 = f(st.g_after); e2 = [e for e in g2.edges if e.idx == st.edge][0]
                 h2.add(Step('sethidden', 'step sethidden %s %s' % (hx(e2.out0), ' '.join(hx(x) for x in e2.hidden)), edge=st.edge, g_after=g2))
-                if manifest_on_sethidden: h2.add(Step('manifest', 'step edit %s %s' % (hx('build.ninja'), hx(g2.manifest())), g_after=g2))
+                if manifest_on_sethidden: h2.add(Step('manifest', manifest_lines(g2), g_after=g2))
             elif st.kind == 'build':
                 d = dict(st.__dict__); d['g'] = f(st.g); d.pop('kind'); d.pop('line')
                 h2.add(Step('build', st.line, **d))
@@ -102,8 +108,18 @@ def gen_history(rnd, sid, nedges, nsteps, feat=None, faults=0.0, wf_reads=True, 
         if r < 0.35:
             sname = rnd.choice(sorted(x for x in h.sources if not x.startswith('dd')))
             h.edit(sname, 'common' if rnd.random() < 0.15 else '%s.%d' % (sname, rnd.randrange(1000000)))
-        elif r < 0.45:
+        elif r < 0.43:
             sname = rnd.choice(sorted(h.sources)); h.add(Step('touch', 'step touch %s' % hx(sname), path=sname))
+        elif r < 0.45 and ne:
+            # the manifest gains an output for an existing statement while a file of that name already lies around (written by
+            # hand, or by a statement that has been removed): no log entry for it, so the statement has to run again
+            es = [e for e in ne if not e.deps and not e.depfile and e.idx < 900 and not e.generator]      # (a generator statement needs no log entry)
+            if es:
+                e = rnd.choice(es); name = 'xo%d_%d' % (e.idx, len(e.outs))
+                h.add(Step('edit', 'step edit %s %s' % (hx(name), hx('lying-around')), path=name))
+                if rnd.random() < 0.5: e.outs.append(name); e.n_imp_out += 1
+                else: e.outs.insert(len(e.outs) - e.n_imp_out, name)
+                h.rewrite_manifest(); h.tags.add('add-output')
         elif r < 0.6 and ne:
             e = rnd.choice(ne); o = rnd.choice(e.outs); h.add(Step('rm', 'step rm %s' % hx(o), path=o)); h.tags.add('rm-output')
         elif r < 0.75 and ne:
@@ -377,6 +393,49 @@ def motif_dyndep_rescan_deps_missing(rnd, sid):
     h.add(Step('build', st.line, g=st.g, sources=st.sources, targets=st.targets, opts=st.opts, repeat=True))
     return h
 
+def motif_deps_record_cycle(rnd, sid):
+    """a cycle closed ONLY by a deps-log record: statement A (deps = gcc, clean, record valid) reported that it reads C's output;
+    then the manifest makes C depend on A's output.  A is clean, so its record is loaded and the scan must find the cycle
+    (with any number of order-only inputs on A and the closing name anywhere in the record)"""
+    g = engine.Graph(); g.sources = {'s1': 'a', 's2': 'b', 'h1': 'h', 'h2': 'hh', 'q1': 'q', 'q2': 'qq'}
+    ce = engine.Edge(0); ce.outs = ['co']; ce.exp = ['s1']
+    ae = engine.Edge(1); ae.outs = ['ao']; ae.exp = ['s2']; ae.deps = 'gcc'; ae.depfile = 'ao.d'
+    ae.oo = rnd.sample(['q1', 'q2'], rnd.randrange(0, 3))
+    extra = rnd.sample(['h1', 'h2'], rnd.randrange(0, 3)); pos = rnd.randrange(len(extra) + 1)
+    ae.hidden = extra[:pos] + ['co'] + extra[pos:]
+    g.edges = [ce, ae]
+    if rnd.random() < 0.5:
+        te = engine.Edge(2); te.outs = ['top']; te.exp = ['ao']; g.edges.append(te)
+    h = Hist(sid, g); h.cycle_kind = 'deps-record'
+    h.build(rnd, ['co'], j=1, k=1, sched=rand_sched(rnd, 6))
+    h.build(rnd, [g.edges[-1].out0], j=1, k=1, sched=rand_sched(rnd, 6))
+    ce.exp = ce.exp + ['ao']; h.rewrite_manifest()
+    st = h.build(rnd, [rnd.choice([g.edges[-1].out0, 'ao'])], j=rnd.choice([1, 2]), k=1, sched=rand_sched(rnd, 6))
+    st.expect_cycle = ('ao', 'co')
+    return h
+
+def motif_restat_prune_failed_oo(rnd, sid):
+    """a statement M that restat pruning removes from the plan (its restat input came out unchanged) has an ORDER-ONLY input whose
+    producer FAILS in this invocation; a dependent E of M has a second dirty input that finishes later, and failure budget is left:
+    E must not start -- being pruned does not make M's outputs ready"""
+    g = engine.Graph(); g.sources = {'rs': 'r.0', 'fs': 'f.0', 'xs': 'x.0'}
+    re_ = engine.Edge(0); re_.outs = ['g.h']; re_.exp = ['rs']; re_.restat = True
+    fe = engine.Edge(1); fe.outs = ['fo']; fe.exp = ['fs']
+    me = engine.Edge(2); me.outs = ['m']; me.exp = ['g.h']; me.oo = ['fo']
+    xe = engine.Edge(3); xe.outs = ['xo']; xe.exp = ['xs']
+    ee = engine.Edge(4); ee.outs = ['e']; ee.exp = ['m', 'xo']
+    g.edges = [re_, fe, me, xe, ee]
+    if rnd.random() < 0.5:
+        pe = engine.Edge(5); pe.phony = True; pe.outs = ['mp']; pe.exp = ['m']; ee.exp = ['mp', 'xo']; g.edges.insert(4, pe)
+    h = Hist(sid, g)
+    h.build(rnd, ['e'], j=rnd.choice([1, 3]), k=1, sched=rand_sched(rnd, 12))
+    h.add(Step('touch', 'step touch %s' % hx('rs'), path='rs'))
+    h.edit('fs', 'f.%d' % rnd.randrange(1, 1000)); h.edit('xs', 'x.%d' % rnd.randrange(1, 1000))
+    h.build(rnd, ['e'], j=rnd.choice([2, 3, 4]), k=rnd.choice([0, 2, 3]), sched=rand_sched(rnd, 12), faults={'fo': (rnd.choice([1, 2, 7]), False)})
+    st = h.build(rnd, ['e'], j=2, k=1, sched=rand_sched(rnd, 12))
+    h.add(Step('build', st.line, g=st.g, sources=st.sources, targets=st.targets, opts=st.opts, repeat=True))
+    return h
+
 def motif_restat_phony_fan(rnd, sid):
     """a restat statement that leaves its output alone, a fan / chain of phony statements behind that output (at least as many
     as there are commands in the plan), and independent commands that still have to run in the same invocation: the
@@ -506,6 +565,7 @@ def gen_cycle_history(rnd, sid):
             getattr(e, e.selfref).append(e.out0); e.selfref = None
             if kind in ('none', 'validation-back', 'self-legacy-form'): kind = 'self-cycle'
     g.defaults = []
+    pce = kind.startswith('self') and rnd.random() < 0.4        # ninja -w phonycycle=err: the legacy self-reference is a cycle too
     h = Hist(sid, g); h.cycle_kind = kind
     outs = [o for e in g.edges for o in e.outs]
     for i in range(rnd.randrange(1, 4)):
@@ -515,12 +575,23 @@ def gen_cycle_history(rnd, sid):
         if i and 'xsrc' in g.sources and rnd.random() < 0.8: h.edit('xsrc', 'x.%d' % rnd.randrange(100000))
         elif i and rnd.random() < 0.3:
             sname = rnd.choice(sorted(x for x in h.sources if not x.startswith('dd'))); h.edit(sname, 'e.%d' % rnd.randrange(100000))
-        h.build(rnd, t, j=rnd.choice([1, 2, 4]), k=rnd.choice([1, 0]), sched=rand_sched(rnd, 2 * len(g.edges) + 2))
+        h.build(rnd, t, j=rnd.choice([1, 2, 4]), k=rnd.choice([1, 0]), sched=rand_sched(rnd, 2 * len(g.edges) + 2), pce=(1 if pce else None))
     return h
 
 def oracle_c17(h, st, b, prev=None):
     g = st.g; prod = g.producer(); bad = []
+    if getattr(st, 'expect_cycle', None):
+        # directed scenario: the cycle is closed by a recorded dependency that ninja must have loaded (the statement is clean)
+        a_, c_ = st.expect_cycle
+        if 'dependency cycle' not in (b.err or '') or b.exit in (0, None):
+            return ['a cycle closed by the deps-log record of the clean statement %s (it reads %s, whose statement now depends on %s) is not diagnosed: exit=%s "%s", started %s' % (a_, c_, a_, b.exit, (b.err or '')[:60], b.started)]
+        return None
     cyc = find_cycle(g, st.targets or default_targets(g))
+    if not cyc and st.opts.get('pce'):
+        # -w phonycycle=err: a statement written in the legacy self-referencing form is not filtered, it is a cycle of length one
+        for n in sorted(g.closure(st.targets or default_targets(g))):
+            e = prod.get(n)
+            if e is not None and e.selfref: cyc = [e.out0, e.out0]; break
     said = 'dependency cycle' in (b.err or '')
     if cyc and not said and getattr(h, 'cycle_kind', '').startswith('dyndep-output'):
         # listed finding (classified by the caller): a cycle closed by a dyndep-discovered implicit OUTPUT is not diagnosed when the
@@ -533,13 +604,14 @@ def oracle_c17(h, st, b, prev=None):
     if said:
         if b.exit in (0, None): bad.append('"dependency cycle" reported but exit status %s' % b.exit)
         m = b.err.split('dependency cycle: ', 1)[1].split('\n')[0] if 'dependency cycle: ' in b.err else ''
+        if m.endswith(' [-w phonycycle=err]'): m = m[:-len(' [-w phonycycle=err]')]
         hops = m.split(' -> ')
         if not cyc: bad.append('acyclic graph rejected as cyclic: %s' % m)
         else:
             if len(hops) < 2 or hops[0] != hops[-1]: bad.append('reported path is not closed: %s' % m)
             for x, y in zip(hops, hops[1:]):
                 e = prod.get(x)
-                if e is None or y not in g.all_ins(e, with_hidden=False): bad.append('reported hop %s -> %s is not a dependency' % (x, y))
+                if e is None or (y not in g.all_ins(e, with_hidden=False) and not (x == y and e.selfref)): bad.append('reported hop %s -> %s is not a dependency' % (x, y))
             cyc_edges = {prod[x].out0 for x in hops if x in prod}
             for o in b.started:
                 # (a cycle that only a dyndep file produced DURING this build reveals, through an implicit output: its consumer may
